@@ -220,7 +220,13 @@ impl<'r> V11<'r> {
 }
 
 fn run_cfg<TC: ModelCfg>(args: &Args, v: &V11, depth: usize) {
-    let alphabet = base_alphabet::<TC>();
+    run_alpha::<TC>(args, v, depth, base_alphabet::<TC>(), false);
+    for orient in 0..(if v.thorough { 2 } else { 1 }) {
+        run_alpha::<TC>(args, v, 1, shape_batches::<TC>(orient), !v.thorough);
+    }
+}
+
+fn run_alpha<TC: ModelCfg>(args: &Args, v: &V11, depth: usize, alphabet: Vec<Batch>, pairs_only: bool) {
     // prefix histories (index sequences) of length <= depth; quick: value x only
     let mut prefixes: Vec<Vec<usize>> = vec![vec![]];
     let mut frontier: Vec<Vec<usize>> = vec![vec![]];
@@ -230,7 +236,7 @@ fn run_cfg<TC: ModelCfg>(args: &Args, v: &V11, depth: usize) {
             for (i, b) in alphabet.iter().enumerate() {
                 // prefix histories: quick — value x only; thorough — the FIRST batch uses value x only (shape
                 // classes), later batches range over x and y
-                if b.is_empty() || ((!v.thorough || p.is_empty()) && b.iter().any(|(_, val)| val == b"y")) {
+                if b.is_empty() || ((!v.thorough || p.is_empty()) && b.iter().any(|(_, val)| val == b"y")) || (pairs_only && b.len() != 2) {
                     continue;
                 }
                 let mut q = p.clone();
@@ -275,7 +281,7 @@ pub fn run(args: &Args) -> i32 {
     let v = V11 { rep: &rep, full_subsets_max: full_max, thorough: !args.quick() };
     run_cfg::<W>(args, &v, depth);
     run_cfg::<E>(args, &v, depth);
-    rep.extra("plan", json!(format!("prefix histories of depth <= {depth} over the 27-batch alphabet (quick: prefixes restricted to value x), then every next batch that creates an epoch; all subsets of the commit body when it has <= {full_max} records, else prefixes of 3 orders + all subsets of size <=2 / >=n-2")));
+    rep.extra("plan", json!(format!("prefix histories of depth <= {depth} over the 27-batch alphabet (quick: prefixes restricted to value x) and depth-1 prefixes over the tree-shape alphabets, then every next batch that creates an epoch; all subsets of the commit body when it has <= {full_max} records, else prefixes of 3 orders + all subsets of size <=2 / >=n-2")));
     rep.finish(
         "one evaluation = one crash state (pre-commit snapshot + a subset W of the commit's non-epoch records) opened by a fresh read-only instance (and a cached Directory) whose epoch hash, lookups, histories (Complete, MostRecent(1), MostRecent(2)) and audits must verify to DirModel at the previous epoch, with labels of the unfinished epoch invisible; after the epoch record lands the new epoch must be served completely. distinct = distinct (configuration, prefix history, crashing batch)",
         &["record-level atomicity of storage writes (the property's premise)", "blake3 collision resistance", "hard-coded test VRF key"],
